@@ -123,83 +123,61 @@ func analyzeLoops(fn *ssa.Function) (map[*ssa.BasicBlock]*loopInfo, []*ssa.Basic
 			}
 		}
 	}
-	// loop ordinals follow the for/range statements of the source in textual order: each natural
-	// loop is matched to the innermost loop statement containing one of its own instructions
-	var stmts []ast.Node
+	// loop ordinals: pre-order of the loop nest, siblings ordered by the first source position of any
+	// of their instructions inside the function body (this is the textual order of the statements)
+	var bodyLo, bodyHi token.Pos
 	var syn ast.Node
 	if fn.Syntax() != nil {
 		syn = fn.Syntax()
 	} else if fn.Origin() != nil {
 		syn = fn.Origin().Syntax()
 	}
-	if syn != nil {
-		ast.Inspect(syn, func(n ast.Node) bool {
-			switch n.(type) {
-			case *ast.ForStmt, *ast.RangeStmt:
-				stmts = append(stmts, n)
-			case *ast.FuncLit:
-				if n != syn {
-					return false
-				}
-			}
-			return true
-		})
+	switch d := syn.(type) {
+	case *ast.FuncDecl:
+		if d.Body != nil {
+			bodyLo, bodyHi = d.Body.Pos(), d.Body.End()
+		}
+	case *ast.FuncLit:
+		bodyLo, bodyHi = d.Body.Pos(), d.Body.End()
 	}
-	stmtOf := map[*loopInfo]int{}
 	for _, li := range list {
-		stmtOf[li] = 1 << 30
-		own := map[*ssa.BasicBlock]bool{}
+		li.pos = token.Pos(1 << 40)
 		for b := range li.body {
-			own[b] = true
-		}
-		for _, lj := range list {
-			if lj.parent == li || (lj != li && li.body[lj.header] && len(lj.body) < len(li.body)) {
-				for b := range lj.body {
-					delete(own, b)
-				}
-			}
-		}
-		best := -1
-		for b := range own {
 			for _, in := range b.Instrs {
 				if _, isDbg := in.(*ssa.DebugRef); isDbg {
 					continue
 				}
 				p := in.Pos()
-				if !p.IsValid() || syn == nil || p < syn.Pos() || p > syn.End() {
+				if !p.IsValid() || (bodyLo.IsValid() && (p < bodyLo || p > bodyHi)) {
 					continue
 				}
-				// innermost statement containing p
-				inner := -1
-				for k, sn := range stmts {
-					if sn.Pos() <= p && p <= sn.End() {
-						inner = k // later statements in pre-order that contain p are nested deeper
-					}
-				}
-				if inner >= 0 && (best == -1 || inner < best) {
-					// an own instruction may syntactically sit in a nested statement's header (e.g. its
-					// init expression); the outermost candidate among own instructions is this loop
-					best = inner
+				if p < li.pos {
+					li.pos = p
 				}
 			}
 		}
-		if best >= 0 {
-			stmtOf[li] = best
-		}
-		li.pos = token.Pos(stmtOf[li])
 	}
-	sort.Slice(list, func(i, j int) bool {
-		if stmtOf[list[i]] != stmtOf[list[j]] {
-			return stmtOf[list[i]] < stmtOf[list[j]]
-		}
-		if len(list[i].body) != len(list[j].body) {
-			return len(list[i].body) > len(list[j].body)
-		}
-		return list[i].header.Index < list[j].header.Index
-	})
-	for i, li := range list {
-		li.ordinal = i + 1
+	children := map[*loopInfo][]*loopInfo{}
+	for _, li := range list {
+		children[li.parent] = append(children[li.parent], li)
 	}
+	ord := 0
+	var walk func(p *loopInfo)
+	walk = func(p *loopInfo) {
+		cs := children[p]
+		sort.Slice(cs, func(i, j int) bool {
+			if cs[i].pos != cs[j].pos {
+				return cs[i].pos < cs[j].pos
+			}
+			return cs[i].header.Index < cs[j].header.Index
+		})
+		for _, c := range cs {
+			ord++
+			c.ordinal = ord
+			walk(c)
+		}
+	}
+	walk(nil)
 	// reverse post-order ignoring back edges
 	visited := map[*ssa.BasicBlock]bool{}
 	var post []*ssa.BasicBlock
@@ -705,7 +683,19 @@ func (x *Exec) havocLike(v Value, hint string) Value {
 	switch a := v.(type) {
 	case Sc:
 		return Sc{T: x.vc.fresh(hint, a.Sort), Signed: a.Signed}
-	case Agg, Big, Tup:
+	case Agg:
+		out := make([]Value, len(a.Elems))
+		for i, e := range a.Elems {
+			out[i] = x.havocLike(e, hint)
+		}
+		return Agg{out, a.Typ}
+	case Tup:
+		out := make([]Value, len(a.Elems))
+		for i, e := range a.Elems {
+			out[i] = x.havocLike(e, hint)
+		}
+		return Tup{out}
+	case Big:
 		return mapLeaves(v, func(s Sc) Sc { return Sc{T: x.vc.fresh(hint, s.Sort), Signed: s.Signed} })
 	case Slc:
 		if a.Nil {
